@@ -42,8 +42,9 @@ type Committer interface {
 }
 
 type justified struct {
-	search thor.Bytes32
-	value  thor.Bytes32
+	search    thor.Bytes32
+	finalized thor.Bytes32
+	value     thor.Bytes32
 }
 
 // Engine tracks all votes of blocks, computes the finalized checkpoint.
@@ -254,7 +255,8 @@ func (engine *Engine) Justified() (thor.Bytes32, error) {
 		return thor.Bytes32{}, err
 	}
 
-	if val := engine.justified.Load(); val != nil && storeID == val.(justified).search {
+	// the cached value was searched from the finalized checkpoint of that moment: it is valid only while finalized stays
+	if val := engine.justified.Load(); val != nil && storeID == val.(justified).search && finalized == val.(justified).finalized {
 		return val.(justified).value, nil
 	}
 
@@ -274,7 +276,7 @@ func (engine *Engine) Justified() (thor.Bytes32, error) {
 		return thor.Bytes32{}, err
 	}
 
-	engine.justified.Store(justified{search: storeID, value: checkpoint})
+	engine.justified.Store(justified{search: storeID, finalized: finalized, value: checkpoint})
 	return checkpoint, nil
 }
 
